@@ -282,7 +282,7 @@ def final_checks(run, scn):
         if isinstance(e, RuntimeError) and str(e).startswith("Too many objects"):
             continue
         out.append({"oracle": "internal-error-escaped", "method": rec.method, "disc": type(e).__name__,
-                    "step": s.step, "detail": {"exc": type(e).__name__, "msg": str(e)[:100],
+                    "step": s.step, "detail": {"exc": type(e).__name__, "msg": engine._exc_text(e)[:100],
                                                "thread": rec.extra.get("tid")}})
     pool = run.pool
     s.in_check = True
@@ -383,8 +383,10 @@ class C08(Prop):
                     elif m == "delete":
                         prog.append({"m": "delete", "a": [E(b"k%d" % t)]})
                     elif m == "fail":
-                        prog.append({"m": rng.choice(["get", "set"]), "a": [E(b"f%d" % t)] + ([E(b"x")] if False else []),
-                                     "faults": [{"at": [rng.choice(["recv", "sendall", "connect"]), 0],
+                        fm = rng.choice(["get", "set", "get", "set", "quit"])
+                        prog.append({"m": fm, "a": [E(b"f%d" % t)] if fm != "quit" else [],
+                                     "faults": [{"at": [rng.choice(["recv", "sendall", "connect"] if fm != "quit"
+                                                                   else ["sendall", "connect", "sendall"]), 0],
                                                  "kind": "reset"}]})
                         if prog[-1]["m"] == "set":
                             prog[-1]["a"].append(E(b"x"))
